@@ -1648,16 +1648,16 @@ def _ordered_merge(left: DataFrame,
             if right_keys_unique:
                 ops.generate_ordered_map_to_inner_both_unique_streamed(
                     left_on_fields[0], right_on_fields[0], left_result, right_result,
-                    rdtype=npdtype)
+                    invalid, rdtype=npdtype)
             else:
                 ops.generate_ordered_map_to_inner_right_unique_streamed(
                     left_on_fields[0], right_on_fields[0], left_result, right_result,
-                    rdtype=npdtype)
+                    invalid, rdtype=npdtype)
         else:
             if right_keys_unique:
                 ops.generate_ordered_map_to_inner_left_unique_streamed(
                     left_on_fields[0], right_on_fields[0], left_result, right_result,
-                    rdtype=npdtype)
+                    invalid, rdtype=npdtype)
             else:
                 ops.generate_ordered_map_to_inner_streamed(
                     left_on_fields[0], right_on_fields[0], left_result, right_result,
